@@ -217,6 +217,12 @@ func customTraceExportHandler(
 	if apicfg.HasKeyIDs() {
 		keyID = traceServer.router.getKeyID(ri.ApiKey)
 	}
+	// Acceptance is decided on the key the client sent, as on every other
+	// endpoint; checking only the replaced key (below, in ExportTraceData) would
+	// accept any unlisted key whenever SendKeyMode replaces it with SendKey.
+	if err := apicfg.IsAccepted(ri.ApiKey, keyID); err != nil {
+		return nil, status.Error(codes.Unauthenticated, err.Error())
+	}
 	keyToUse, err := apicfg.GetReplaceKey(ri.ApiKey, keyID)
 	if err != nil {
 		return nil, status.Error(codes.Unauthenticated, err.Error())
